@@ -22,6 +22,7 @@ func init() {
 		"(*sync.Mutex).Unlock":    stubUnlock(true),
 		"(*sync.Mutex).TryLock":   stubTryLock,
 		"(*sync.RWMutex).Lock":    stubLock(true),
+		"(*sync.RWMutex).TryLock": stubTryLock,
 		"(*sync.RWMutex).Unlock":  stubUnlock(true),
 		"(*sync.RWMutex).RLock":   stubLock(false),
 		"(*sync.RWMutex).RUnlock": stubUnlock(false),
